@@ -62,10 +62,13 @@ def observe(res, first, nattempts):
     """-> list of (out, marks) per attempt"""
     out = []
     rs = res["results"]
+    if res.get("skipped"):
+        return None
+    crashed = ("Abort(process died: %s)" % res.get("status")) if res.get("crashed") else None
     for k in range(nattempts):
         i = first + 2 * k
         if i >= len(rs):
-            out.append(("NotRun", []))
+            out.append((crashed or "NotRun(after a panic)", []))
             continue
         o = observed_out(rs[i])
         marks = []
@@ -91,6 +94,9 @@ def classes_for(imports, kind, attempts, k, obs):
 def compare_vec(ctx, v, mode, res, first):
     attempts = [h["lib"] for h in v["history"]]
     obs = observe(res, first, len(attempts))
+    if obs is None:
+        ctx.cov["skipped_after_crashes"] = ctx.cov.get("skipped_after_crashes", 0) + 1
+        return False
     for k, (h, (o, marks)) in enumerate(zip(v["history"], obs)):
         cands = v["cands"][h["lib"] - 1]
         ctx.count(evaluations=1)
@@ -206,7 +212,7 @@ def run(ctx):
     with open(tpath, "w") as f:
         for c, ((imports, kind, attempts), res, first, mode) in enumerate(zip(confs, results, firsts, modes)):
             f.write(json.dumps({"ev": "config", "imports": imports, "kind": kind}) + "\n"); index.append((c, -1))
-            for k, (o, marks) in enumerate(observe(res, first, len(attempts))):
+            for k, (o, marks) in enumerate(observe(res, first, len(attempts)) or []):
                 f.write(json.dumps({"ev": "attempt", "lib": attempts[k], "out": o, "marks": marks}) + "\n"); index.append((c, k))
     tr = run_tlc("LoaderTrace.tla", "LoaderTrace.cfg", ctx.dir, workers=1, timeout=2400, xss="512m", deque=True,
                  env={"TRACE": tpath}, want_tags=("MISMATCH",))
